@@ -68,3 +68,32 @@ Theorem C04_meek_quota_recomputed_every_iteration_whole_run : forall A S (ZL : z
   raw ZL (as_quota sn) = raw ZL (as_votes sn) * S / ((cf_nseats cfg + 1) * S) + (if exact A then 0 else raw ZL (epsilon A)).
 Proof. exact count_meek_quota. Qed.
 Print Assumptions C04_meek_quota_recomputed_every_iteration_whole_run.
+
+(* WHOLE RUN, Gregory family (wigm, wigm-prf(-batch), scotland, mpls, cfer(-batch)), every arithmetic, profile and fuel:
+   the quota is computed once, before the first snapshot is taken, and never changes -- in the record of a count that ends
+   without a crash the final quota and the quota of EVERY snapshot are the value the rule's calcQuota() returned
+   ([rule_quota]; [snaps l] lists the snapshots of an action list). *)
+From Droop Require Import Proofs.ForwardCount Proofs.QuotaCount.
+Theorem C04_gregory_quota_is_fixed_at_the_start_whole_run : forall A cfg r (q : T A) pr fuel s k,
+  rule_quota A cfg r = Some (Ok q) ->
+  exec (@crashed A) fuel (count_cmd A cfg r) (init_state A cfg pr) = Some (s, k) -> k <> Abort ->
+  quota s = q /\ Forall (fun sn => as_quota sn = q) (snaps A (actions s)).
+Proof. exact count_quota_fixed. Qed.
+Print Assumptions C04_gregory_quota_is_fixed_at_the_start_whole_run.
+
+(* ... and under the integer-carrier arithmetics (Fixed / integer / Guarded) that value is the prescribed one, in raw units
+   (S = 10^precision): floor(ballots*S/(seats+1)) + 1 for wigm, wigm-prf and cfer -- the quotient truncated plus one unit
+   in the last place; (floor(ballots/(seats+1)) + 1) whole votes for scotland, mpls and wigm with integer_quota. *)
+Theorem C04_gregory_quota_is_the_prescribed_one_in_every_snapshot : forall A S (ZL : zlike A S) cfg,
+  0 <= cf_nseats cfg -> raw ZL (epsilon A) = 1 -> exact A = false ->
+  forall r pr fuel s k, seat_rule r ->
+  exec (@crashed A) fuel (count_cmd A cfg r) (init_state A cfg pr) = Some (s, k) -> k <> Abort ->
+  raw ZL (quota s) = prescribed S cfg r /\ Forall (fun sn => raw ZL (as_quota sn) = prescribed S cfg r) (snaps A (actions s)).
+Proof. exact count_quota_prescribed. Qed.
+Print Assumptions C04_gregory_quota_is_the_prescribed_one_in_every_snapshot.
+
+Example C04_prescribed_values : forall cfg,
+  prescribed 1000 cfg RCfer = cf_nballots cfg * 1000 / (cf_nseats cfg + 1) + 1 /\
+  prescribed 1000 cfg RScotland = (cf_nballots cfg / (cf_nseats cfg + 1) + 1) * 1000 /\
+  prescribed 1000 cfg RMpls = (cf_nballots cfg / (cf_nseats cfg + 1) + 1) * 1000.
+Proof. intros cfg. repeat split. Qed.
